@@ -44,8 +44,26 @@ def _inline(fi):
     return out
 
 
+class _CompIndex(ast.NodeTransformer):
+    """[f(i) for i in range(E)][k] -> f(k)   and   (a, b)[0] -> a"""
+    def visit_Subscript(self, node):
+        self.generic_visit(node)
+        v = node.value
+        if isinstance(v, ast.ListComp) and len(v.generators) == 1 and not v.generators[0].ifs and isinstance(v.generators[0].target, ast.Name) \
+                and isinstance(v.generators[0].iter, ast.Call) and nf.callee_name(v.generators[0].iter) == 'range' \
+                and len(v.generators[0].iter.args) == 1 and not isinstance(node.slice, ast.Slice):
+            return nf.subst(v.elt, {v.generators[0].target.id: node.slice})
+        if isinstance(v, ast.Tuple) and isinstance(node.slice, ast.Constant) and isinstance(node.slice.value, int) \
+                and -len(v.elts) <= node.slice.value < len(v.elts):
+            return v.elts[node.slice.value]
+        return node
+
+
 def _sub(node, env):
-    return nf.canon(nf.subst(node, env))
+    out = nf.subst(node, env)
+    if any(isinstance(n, ast.Subscript) and isinstance(n.value, (ast.ListComp, ast.Tuple)) for n in ast.walk(out)):
+        out = _CompIndex().visit(out)
+    return nf.canon(out)
 
 
 class Cell(object):
@@ -130,6 +148,15 @@ class Cell(object):
                 elif not isinstance(s.target, ast.Name):
                     raise AnalysisError('%s: update of unreviewed target `%s`' % (self.fi.qualname, short(s)))
                 continue
+            if isinstance(s, ast.Assign) and len(s.targets) == 1 and isinstance(s.targets[0], ast.Tuple) \
+                    and isinstance(s.value, ast.Tuple) and len(s.value.elts) == len(s.targets[0].elts) \
+                    and all(isinstance(t, ast.Name) for t in s.targets[0].elts) \
+                    and not any(isinstance(n, ast.Call) for n in ast.walk(s.value)):
+                vals_ = [nf.subst(v, self.env) for v in s.value.elts]          # local abbreviations: row, col = (path[i][0], path[i][1])
+                self.env = dict(self.env)
+                for t, v in zip(s.targets[0].elts, vals_):
+                    self.env[t.id] = v
+                continue
             if isinstance(s, ast.Assign):
                 for t in s.targets:
                     tt = _sub(t, self.env)
@@ -191,8 +218,14 @@ def _gen_of(fi, e):
     return v if isinstance(v, (ast.GeneratorExp, ast.ListComp)) else None
 
 
-def _nest(fi, depth):
-    """The unique chain of `depth` nested for-loops at the top level of fi; returns the list of For nodes."""
+def _nest(fi, depth, env=None):
+    """The unique chain of `depth` nested for-loops at the top level of fi (looking through with-blocks); returns the For nodes.
+
+    Loops over the rows of an n x n field are brought to index form: `for i, row in enumerate(self.C)` and `for row in self.C`
+    become `for i in range(self.n)` with `row` standing for `self.C[i]`; likewise `for j, cell in enumerate(row)` inside.
+    The aliases are added to `env` (the substitution the callers apply before matching)."""
+    S = fi.params[0] if fi.params else 'self'
+
     def flat(stmts):
         out = []
         for x in stmts:
@@ -201,6 +234,34 @@ def _nest(fi, depth):
             else:
                 out.append(x)
         return out
+
+    def rng():
+        return ast.parse('range(%s.n)' % S, mode='eval').body
+
+    def index_form(lp, k):
+        """-> For with a Name target over range(self.n), or lp itself"""
+        if isinstance(lp.target, ast.Name) and cm.is_call_to(lp.iter, 'range'):
+            return lp
+        it = lp.iter
+        line, idxname, elem = None, None, None
+        if cm.is_call_to(it, 'enumerate', 1) and isinstance(lp.target, ast.Tuple) and len(lp.target.elts) == 2 \
+                and all(isinstance(t, ast.Name) for t in lp.target.elts):
+            line, idxname, elem = it.args[0], lp.target.elts[0].id, lp.target.elts[1].id
+        elif isinstance(lp.target, ast.Name):
+            line, idxname, elem = it, '_k%d' % k, lp.target.id
+        if line is None:
+            return lp
+        base = nf.subst(line, env or {})
+        square = cm.is_self_attr(base, S) and base.attr in ('C', 'marked')
+        row_of_square = isinstance(base, ast.Subscript) and cm.is_self_attr(base.value, S) and base.value.attr in ('C', 'marked')
+        if not (square or row_of_square):
+            return lp
+        if env is not None:
+            env[elem] = ast.Subscript(value=base, slice=ast.Name(id=idxname, ctx=ast.Load()), ctx=ast.Load())
+        shim = ast.For(target=ast.Name(id=idxname, ctx=ast.Store()), iter=rng(), body=lp.body, orelse=lp.orelse)
+        ast.copy_location(shim, lp)
+        ast.fix_missing_locations(shim)
+        return shim
     cur = flat(fi.node.body)
     chain = []
     for d in range(depth):
@@ -208,11 +269,15 @@ def _nest(fi, depth):
         fors = [s for s in cur if isinstance(s, ast.For)]
         if len(fors) != 1:
             raise AnalysisError('%s: expected one for-loop at nesting depth %d, found %d' % (fi.qualname, d + 1, len(fors)))
-        chain.append(fors[0])
-        cur = fors[0].body
+        lp = index_form(fors[0], d)
+        chain.append(lp)
+        cur = lp.body
     for f in chain:
         if not isinstance(f.target, ast.Name):
             raise AnalysisError('%s: loop target is not a name' % fi.qualname)
+    # the inner loop object must be the one found in the outer loop's body for the per-cell executor
+    for a, b in zip(chain, chain[1:]):
+        a.body = [b if (isinstance(x, ast.For) and x is not b and getattr(b, 'lineno', None) == getattr(x, 'lineno', -1)) else x for x in a.body]
     return chain
 
 
@@ -274,7 +339,7 @@ def check_steps(r, idx):
 def _step6(r, idx, fi, fs):
     S = fi.params[0]
     env = _inline(fi)
-    lo, li = _nest(fi, 2)
+    lo, li = _nest(fi, 2, env)
     i, j = lo.target.id, li.target.id
     label = 'Munkres.__step6'
     _full_range(r, fi, env, [lo, li], label, S)
@@ -670,7 +735,7 @@ def _find_smallest(r, idx, fi):
     S = fi.params[0]
     env = _inline(fi)
     try:
-        _nest(fi, 2)
+        _nest(fi, 2, env)
         nested = True
     except AnalysisError:
         nested = False
@@ -678,7 +743,7 @@ def _find_smallest(r, idx, fi):
         return
     if not any(isinstance(x, ast.For) for x in fi.node.body) and _find_smallest_fold(r, idx, fi, S, env):
         return
-    lo, li = _nest(fi, 2)
+    lo, li = _nest(fi, 2, env)
     i, j = lo.target.id, li.target.id
     label = 'Munkres.__find_smallest'
     _full_range(r, fi, env, [lo, li], label, S)
@@ -726,7 +791,7 @@ def _find_smallest(r, idx, fi):
 def _step1(r, idx, fi):
     S = fi.params[0]
     env = _inline(fi)
-    lo, li = _nest(fi, 2)
+    lo, li = _nest(fi, 2, env)
     i, j = lo.target.id, li.target.id
     label = 'Munkres.__step1'
     _full_range(r, fi, env, [lo, li], label, S)
@@ -901,7 +966,7 @@ def _step2(r, idx, fi):
     managers = _snapshot_managers(idx, fi)
     for w_, alias_, restored_ in managers:
         env.update(alias_)
-    lo, li = _nest(fi, 2)
+    lo, li = _nest(fi, 2, env)
     i, j = lo.target.id, li.target.id
     label = 'Munkres.__step2'
     _full_range(r, fi, env, [lo, li], label, S)
@@ -977,7 +1042,7 @@ def _step2(r, idx, fi):
 def _step3(r, idx, fi):
     S = fi.params[0]
     env = _inline(fi)
-    lo, li = _nest(fi, 2)
+    lo, li = _nest(fi, 2, env)
     i, j = lo.target.id, li.target.id
     label = 'Munkres.__step3'
     _full_range(r, fi, env, [lo, li], label, S)
@@ -1216,10 +1281,17 @@ def _step5(r, idx, fi, cp):
         if term:
             _early(r, cp, term, construct, ('inside the path', 'path elements are not flipped'))
             return
-        vs = [nf.const_value(v, '?') for t, op, v, s in eff if t == 'm' and op == '=']
+        vs = []
+        for t, op, v, s in eff:
+            if t == 'm' and op == '=':
+                while isinstance(v, ast.IfExp):          # value chosen by a conditional expression over the same atom
+                    v = v.body if cell.truth(nf.canon(v.test), {'st': combo[0]}) else v.orelse
+                vs.append(nf.const_value(v, '?'))
         vals[combo[0]] = vs[-1] if vs else None
     if vals.get(True) == 0 and vals.get(False) == 1:
         r.ok(construct, 'stars on the path are removed, primes become stars', lib.loc(cp, lp))
+    elif '?' in vals.values():
+        r.undecided(construct, 'the value written along the path is not a constant per case', lib.loc(cp, lp))
     else:
         r.violation(construct, 'along the path a starred zero becomes %r and a primed zero becomes %r (required: 0 and 1)' % (
             vals.get(True), vals.get(False)), lib.loc(cp, lp), expected='star -> 0, prime -> 1')
@@ -1730,7 +1802,7 @@ def _prime_lifetime(r, idx, meth):
 def _resets(r, idx, cc, ep):
     S = cc.params[0]
     env = _inline(cc)
-    (lp,) = _nest(cc, 1)
+    (lp,) = _nest(cc, 1, env)
     k = lp.target.id
     label = 'Munkres.__clear_covers'
     _full_range(r, cc, env, [lp], label, S)
@@ -1757,7 +1829,7 @@ def _resets(r, idx, cc, ep):
             worst[1]['rc'], worst[1]['cc']), cc.loc, expected='row_covered[i] = col_covered[i] = False')
     S = ep.params[0]
     env = _inline(ep)
-    lo, li = _nest(ep, 2)
+    lo, li = _nest(ep, 2, env)
     i, j = lo.target.id, li.target.id
     label = 'Munkres.__erase_primes'
     _full_range(r, ep, env, [lo, li], label, S)
